@@ -55,13 +55,14 @@ KINDS = {
     "dipoleAngle": ("dipoleAngle", ["group1", "group2", "group3"]),
     "polarTheta": ("polarTheta", ["atoms"]),
     "polarPhi": ("polarPhi", ["atoms"]),
+    "rmsd": ("rmsd", ["atoms"]),
 }
 COM_BASED = {"distance", "distanceVec", "distanceZ", "distanceZ2", "distanceXY", "distanceXY2", "angle", "dihedral", "polarTheta", "polarPhi"}
-ATOM_BASED = {"distanceInv", "gyration", "inertia", "inertiaZ", "coordNum", "selfCoordNum", "dipoleMagnitude", "dipoleAngle"}
+ATOM_BASED = {"rmsd", "distanceInv", "gyration", "inertia", "inertiaZ", "coordNum", "selfCoordNum", "dipoleMagnitude", "dipoleAngle"}
 POSITIVE = {"distance", "distanceXY", "distanceXY2", "distanceInv", "gyration", "inertia", "angle"}
 T1 = ["distance", "distanceZ", "distanceZ2", "distanceXY", "distanceXY2", "distanceInv", "gyration", "inertia", "inertiaZ",
       "angle", "coordNum", "selfCoordNum"]
-T2 = ["dihedral", "dipoleMagnitude", "dipoleAngle", "polarTheta", "polarPhi"]
+T2 = ["dihedral", "dipoleMagnitude", "dipoleAngle", "polarTheta", "polarPhi", "rmsd"]
 
 
 def v3(t):
@@ -117,6 +118,8 @@ def cvc_conf(c):
         L.append("    expDenom %d" % (2 * pr["ed2"]))
         if pr.get("g2c"):
             L.append("    group2CenterOnly on")
+    if c["kind"] == "rmsd":
+        L.append("    refPositions " + " ".join(v3(x) for x in pr["ref"]))
     for extra in c.get("extra", []):
         L.append("    " + extra)
     for key, g in zip(gkeys, c["groups"]):
@@ -139,6 +142,12 @@ def config_text(case):
             L += ["metadynamics {", "  name b%d" % j, "  colvars " + " ".join("v%d" % t[0] for t in b["terms"]),
                   "  hillWeight %r" % b["W"], "  gaussianSigmas " + " ".join("%r" % t[1] for t in b["terms"]),
                   "  newHillFrequency 1000", "  useGrids off", "}"]
+            continue
+        if b["type"] == "hist":
+            L += ["histogramRestraint {", "  name b%d" % j, "  colvars " + " ".join("v%d" % t[0] for t in b["terms"]),
+                  "  lowerBoundary %r" % b["lo"], "  upperBoundary %r" % (b["lo"] + b["w"] * len(b["ref"])), "  width %r" % b["w"],
+                  "  gaussianSigma %r" % b["sigma"], "  refHistogram " + " ".join("%r" % x for x in b["ref"]),
+                  "  forceConstant %r" % b["k"], "}"]
             continue
         if b["type"] == "abmd":
             L += ["abmd {", "  name b%d" % j, "  colvars v%d" % b["terms"][0][0], "  forceConstant %r" % b["k"],
@@ -302,6 +311,10 @@ def model_line(case, res=None):
                 t += [hx(pr["r0"]), str(pr["en2"]), str(pr["ed2"]), "1" if pr.get("g2c") else "0"]
             if k == "selfCoordNum":
                 t += [hx(pr["r0"]), str(pr["en2"]), str(pr["ed2"])]
+            if k == "rmsd":
+                t.append(str(len(pr["ref"])))
+                for x in pr["ref"]:
+                    t += [hx(x[0]), hx(x[1]), hx(x[2])]
             t.append(str(len(c["groups"])))
             for g in c["groups"]:
                 t += group_tokens(g)
@@ -319,6 +332,19 @@ def model_line(case, res=None):
             t += ["meta", "1", hx(b["W"]), str(len(terms))]
             for (j, cj, sg) in terms:
                 t += [str(j), hx(cj), hx(sg)]
+            continue
+        if b["type"] == "hist":
+            vs = [j for (i, _) in b["terms"] for j in vmap[i]]
+            # colvarbias_restraint_histogram: init normalises the reference; update uses norm = 1/(sqrt(2 pi) sigma n)
+            ref = list(b["ref"])
+            integral = sum(ref) * b["w"]
+            if abs(integral - 1.0) > 1.0e-03:
+                ref = [x / integral for x in ref]
+            norm = 1.0 / (math.sqrt(2.0 * math.pi) * b["sigma"] * len(vs))
+            t += ["hist", hx(b["k"]), hx(norm), hx(b["sigma"]), str(len(ref))]
+            for ig, rg in enumerate(ref):
+                t += [hx(b["lo"] + (ig + 0.5) * b["w"]), hx(rg)]
+            t += [str(len(vs))] + [str(j) for j in vs]
             continue
         if b["type"] == "abmd":
             i = b["terms"][0][0]
@@ -395,6 +421,25 @@ def mic(case, d, pbc=True):
         margin = min(margin, y - f, f + 1 - y)
         out.append(d[k] - f * cell[k])
     return out, margin
+
+
+def jacobi_eigs(S):
+    """eigenvalues (ascending) of a small symmetric matrix, cyclic Jacobi"""
+    n = len(S); A = [row[:] for row in S]
+    for _ in range(60):
+        for p in range(n - 1):
+            for q in range(p + 1, n):
+                if abs(A[p][q]) > 1e-300:
+                    th = (A[q][q] - A[p][p]) / (2.0 * A[p][q])
+                    t = (1.0 if th >= 0 else -1.0) / (abs(th) + math.sqrt(th * th + 1.0))
+                    c = 1.0 / math.sqrt(t * t + 1.0); sn = t * c
+                    for k in range(n):
+                        akp, akq = A[k][p], A[k][q]
+                        A[k][p] = c * akp - sn * akq; A[k][q] = sn * akp + c * akq
+                    for k in range(n):
+                        apk, aqk = A[p][k], A[q][k]
+                        A[p][k] = c * apk - sn * aqk; A[q][k] = sn * apk + c * aqk
+    return sorted(A[i][i] for i in range(n))
 
 
 def cvc_guard(case, c):
@@ -493,6 +538,20 @@ def cvc_guard(case, c):
                     if vnorm(d) < 0.3 or m <= MARG or abs(vnorm(d) / pr["r0"] - 1.0) < 0.05:
                         return False
             return True
+        if k == "rmsd":
+            # non-degenerate optimal rotation (gap between the two largest eigenvalues of the overlap matrix) and rmsd > 0
+            l = gpositions(case, gs[0]); rf = [list(x) for x in pr["ref"]]
+            n = len(l)
+            cl = [sum(p[kk] for p in l) / n for kk in range(3)]; cr = [sum(p[kk] for p in rf) / n for kk in range(3)]
+            y = [vsub(p, cl) for p in l]; rr = [vsub(p, cr) for p in rf]
+            C = [[sum(a[i2] * b[j2] for a, b in zip(y, rr)) for j2 in range(3)] for i2 in range(3)]
+            S = [[C[0][0]+C[1][1]+C[2][2], C[1][2]-C[2][1], C[2][0]-C[0][2], C[0][1]-C[1][0]],
+                 [C[1][2]-C[2][1], C[0][0]-C[1][1]-C[2][2], C[0][1]+C[1][0], C[0][2]+C[2][0]],
+                 [C[2][0]-C[0][2], C[0][1]+C[1][0], C[1][1]-C[0][0]-C[2][2], C[1][2]+C[2][1]],
+                 [C[0][1]-C[1][0], C[0][2]+C[2][0], C[1][2]+C[2][1], C[2][2]-C[0][0]-C[1][1]]]
+            w = jacobi_eigs(S)
+            msd = (sum(vdot(a, a) for a in y) + sum(vdot(a, a) for a in rr) - 2 * w[-1]) / n
+            return (w[-1] - w[-2]) > 1.0 and msd > 0.1
         if k in ("gyration", "inertia", "inertiaZ"):
             l = gpositions(case, gs[0])
             return math.sqrt(sum(vdot(p, p) for p in l) / len(l)) > 0.3
@@ -576,9 +635,11 @@ def gen_cvc(r, kind, n_atoms, opts):
         size = None
         if kind in ("gyration", "inertia", "inertiaZ", "selfCoordNum", "dipoleMagnitude") or (kind == "dipoleAngle" and gi == 0):
             size = r.choice([2, 3, 4, 5])
+        if kind == "rmsd":
+            size = r.choice([3, 4, 5])
         allow_dummy = not atom_based_first or (kind == "coordNum" and gi == 1)
         # gyration/inertia centre their group themselves; explicit fitting options change their meaning
-        allow_center = kind not in ("gyration", "inertia", "inertiaZ")
+        allow_center = kind not in ("gyration", "inertia", "inertiaZ", "rmsd")   # rmsd: default fit of the component itself
         if kind == "distancePairs":
             size, allow_dummy, allow_center = r.choice([1, 2, 2]), False, True
         g = gen_group(r, n_atoms, pool, opts, size=size, allow_dummy=allow_dummy, allow_center=allow_center)
@@ -594,6 +655,9 @@ def gen_cvc(r, kind, n_atoms, opts):
         c["groups"].append(g)
         if disjoint and pool is None and gi + 1 < ng:
             return None
+    if kind == "rmsd":
+        n = len(c["groups"][0]["ids"])
+        pr["ref"] = [tuple(V.dyadic(r, -3, 3, bits=3) for _ in range(3)) for _ in range(n)]
     if kind == "coordNum" and "dummy" in c["groups"][1]:
         pr["g2c"] = True
     c["coeff"] = r.choice([1.0, 1.0, 1.0, -1.0, 0.5, 2.0, 1.5, -0.25]) if opts["poly"] else 1.0
@@ -746,6 +810,14 @@ def gen_case(r, kinds, opts):
                 terms.append((i, lo, up))
             b = {"type": "walls", "hl": hl, "hu": hu, "lwk": r.choice([1.0, 2.0, 4.0, 0.5]), "uwk": r.choice([1.0, 2.0, 4.0, 8.0]), "terms": terms}
         case["biases"].append(b)
+    if opts.get("histr") and r.random() < opts["histr"]:
+        vis = [i for i, v in enumerate(case["vars"]) if v.get("vec") in (None, False, "pairs") and not var_period(v)]
+        if vis:
+            vis = vis if r.random() < 0.5 else [r.choice(vis)]
+            case["biases"][r.randrange(len(case["biases"]))] = {
+                "type": "hist", "k": r.choice([1.0, 10.0, 4.0]), "lo": r.choice([0.0, -2.0]), "w": r.choice([2.0, 1.0]),
+                "sigma": r.choice([1.5, 1.0, 2.0]), "ref": [V.dyadic(r, 0, 0.25, bits=4) + 0.0625 for _ in range(6)],
+                "terms": [(i, None) for i in vis]}
     case["touched"] = touched_atoms(case)
     if opts.get("hist") and r.random() < opts["hist"]:
         # a history-dependent bias evaluated at a frozen state: one metadynamics hill / the ABMD reference, produced by
@@ -1266,7 +1338,7 @@ def check(run):
     model, exes = st
     vsim = exes["vsim"]
 
-    opts = {"dummy": True, "center": True, "poly": True, "cell": True, "nofitgrad": True, "vec": 0.12, "pairs": 0.08, "hist": 0.2, "biases": ["harmonic", "harmonic", "walls", "linear"]}
+    opts = {"dummy": True, "center": True, "poly": True, "cell": True, "nofitgrad": True, "vec": 0.12, "pairs": 0.08, "hist": 0.2, "histr": 0.1, "biases": ["harmonic", "harmonic", "walls", "linear"]}
     kinds = T1 + T1 + T2
     ncases = 500 if quick else 40000
     cases = load_corpus()
@@ -1277,7 +1349,7 @@ def check(run):
         c = gen_case(r, ["distance"], vplain)
         if c:
             cases.append(c)
-    pplain = dict(plain, pairs=1.0, cell=True, biases=["harmonic", "linear"])
+    pplain = dict(plain, pairs=1.0, cell=True, histr=0.4, biases=["harmonic", "linear"])
     for _ in range(8 if quick else 80):
         c = gen_case(r, ["distance"], pplain)
         if c:
